@@ -9,15 +9,6 @@ import GoNfsd.Lemmas.BlockTree
 namespace GoNfsd.Model.BlockMap
 open GoNfsd.Gen.Consts
 
-/-- the first file block a position's subtree serves -/
-def firstBn : Pos → Nat
-  | .dir i => i
-  | .iroot => NDIRECT
-  | .ileaf i => NDIRECT + i
-  | .droot => NDIRECT + NBLKBLK
-  | .dmid j => NDIRECT + NBLKBLK + NBLKBLK * j
-  | .dleaf j i => NDIRECT + NBLKBLK + NBLKBLK * j + i
-
 /-- nothing is mapped from file block `n` on -/
 def EmptyFromR (st : Store) (dirf : Nat → Nat) (r8 r9 : Nat) (n : Nat) : Prop :=
   ∀ q, q.valid → n ≤ firstBn q → ptrR st dirf r8 r9 q = 0
